@@ -1,6 +1,6 @@
 (* C06 property theorems.  Only statements closed by [exact]; each followed by Print Assumptions.
    All are stated over the scanner/inferrer instantiated with the digit tables REGENERATED from /repo. *)
-From Miller Require Import Base.Bytes C06.Model C06.Proofs C06.Grammar C06.GrammarProofs C06.GrammarInfer C06.Tables C06.TableProofs gen.Gen_ScanTables gen.Gen_ScanTypes.
+From Miller Require Import Base.Bytes C06.Model C06.Proofs C06.Grammar C06.GrammarProofs C06.GrammarInfer C06.GrammarAccept C06.Tables C06.TableProofs gen.Gen_ScanTables gen.Gen_ScanTypes.
 Open Scope char_scope.
 
 (* (B) regenerated tables = documented digit classes, all 256 bytes *)
@@ -100,6 +100,21 @@ Print Assumptions C06_inference_is_documented_grammar.
 Theorem C06_inferred_float_is_float_literal : forall (s : bytes) (b : Z), ginfer FDefault s = VFloat b -> FloatLit s.
 Proof. exact (fun s b H => float_kind_sound s b (eq_trans (eq_sym (C06_inference_is_documented_grammar FDefault s)) H)). Qed.
 Print Assumptions C06_inferred_float_is_float_literal.
+
+(* scanner-accepts-as-float <=> grammar, ALL byte strings: the scanner (regenerated tables) classifies s as a float candidate and
+   strconv accepts it exactly when s is a float literal of the grammar that has a decimal point or an exponent *)
+Theorem C06_scanner_float_path_iff_grammar :
+  forall s : bytes, (gscan s = SMaybeFloat /\ parse_float s <> None) <-> (FloatLit s /\ has_point_or_exp s = true).
+Proof. exact g_float_path_iff_grammar. Qed.
+Print Assumptions C06_scanner_float_path_iff_grammar.
+
+(* ... and then the inferred value is the literal's value correctly rounded (a string only beyond the double range) *)
+Theorem C06_float_literal_is_inferred_float :
+  forall s : bytes, FloatLit s -> has_point_or_exp s = true ->
+  exists p, float_parts (snd (split_sign s)) = Some p
+  /\ ginfer FDefault s = match float_value (is_neg (fst (split_sign s))) p with Some b => VFloat b | None => VString end.
+Proof. exact g_float_literal_inferred. Qed.
+Print Assumptions C06_float_literal_is_inferred_float.
 
 (* the regenerated scan-type enum, inferrer dispatch tables and flag -> inferrer selection are those of the model *)
 Theorem C06_dispatch_tables_match :
